@@ -286,6 +286,9 @@ var pubTopicSets = [][]string{{""}, {"t"}, {"", "t"}, {"v"}}
 
 // runScenario runs one seeded scenario; it returns the events, or blocked=true with a goroutine dump.
 func runScenario(seed int64, focus string) (evs []jev, blocked bool, dump string) {
+	if focus == "firstuse" {
+		return firstUseScenario(seed)
+	}
 	rng := rand.New(rand.NewSource(seed))
 	procs := []int{1, 2, 16}[rng.Intn(3)]
 	runtime.GOMAXPROCS(procs)
